@@ -73,7 +73,7 @@ impl BlockRead for VecReader {
 }
 
 /// Returns the trace line of one case.
-fn run_case(case_id: usize, start: usize, lens: &[usize], seed: u64) -> Value {
+fn run_case(case_id: usize, start: usize, lens: &[usize], seed: u64, orphan_frames: usize) -> Value {
     let writes = Arc::new(Mutex::new(Vec::new()));
     let log_writer = LogWriter { data: Vec::new(), writes: writes.clone() };
     let mut writer: RecordWriter<LogWriter> = FrameWriter::create(log_writer).into();
@@ -88,6 +88,29 @@ fn run_case(case_id: usize, start: usize, lens: &[usize], seed: u64) -> Value {
     if in_block >= HDR {
         writer.write_record(RawEntry(&vec![0xBBu8; in_block - HDR])).unwrap();
         fill_entries += 1;
+    }
+    // "what precedes": the dangling head of an entry whose writer died before its last frame
+    // (a process crash inside a multi-block append): the first `orphan_frames` frames of a
+    // 3-block entry stay, the writer resumes right after them (as recovery positions it)
+    let mut orphan = 0;
+    if orphan_frames > 0 {
+        let before = writes.lock().unwrap().len();
+        let keep_until;
+        {
+            writer.write_record(RawEntry(&vec![0xCCu8; 3 * BLOCK_NUM_BYTES])).unwrap();
+            let all = writes.lock().unwrap();
+            let frames: Vec<&(usize, usize, u8)> = all[before..].iter().filter(|write| write.2 != 0).collect();
+            let kept = orphan_frames.min(frames.len() - 1);
+            let last_kept = frames[kept - 1];
+            keep_until = last_kept.0 + last_kept.1;
+            orphan = kept;
+        }
+        // rebuild a writer over the truncated bytes
+        let mut data = writer.get_underlying_wrt().data.clone();
+        data.truncate(keep_until);
+        writes.lock().unwrap().retain(|write| write.0 < keep_until);
+        let resumed = LogWriter { data, writes: writes.clone() };
+        writer = FrameWriter::create(resumed).into();
     }
     let filler_writes = writes.lock().unwrap().len();
     let real_start = writer.get_underlying_wrt().data.len();
@@ -124,7 +147,8 @@ fn run_case(case_id: usize, start: usize, lens: &[usize], seed: u64) -> Value {
         }
     }
     let read_tail: Vec<Value> = read.iter().skip(fill_entries).cloned().collect();
-    json!({"ev": "frames", "id": case_id, "start": real_start, "want_start": start, "lens": lens, "ws": ws,
+    let start = if orphan > 0 { real_start } else { start };
+    json!({"ev": "frames", "id": case_id, "orphan": orphan, "start": real_start, "want_start": start, "lens": lens, "ws": ws,
            "wrote": wrote, "read": read_tail, "nread": read.len(), "nfill": fill_entries, "errors": errors,
            "reported": reported, "end": end})
 }
@@ -203,7 +227,11 @@ pub fn cmd(args: &Args) {
                     }
                 }
             }
-            let line = run_case(chunk * 1_000_000 + idx, start, &lens, rng.next());
+            let orphan_frames = if !sweep && rng.chance(25) { 1 + rng.below(3) as usize } else { 0 };
+            let line = run_case(chunk * 1_000_000 + idx, start, &lens, rng.next(), orphan_frames);
+            if orphan_frames > 0 {
+                output_in.add("frame_cases_after_orphan", 1);
+            }
             output_in.add("frame_cases", 1);
             output_in.add("frame_entries", lens.len() as u64);
             output_in.add("frames_written", line["ws"].as_array().unwrap().len() as u64);
